@@ -7,13 +7,13 @@ ROOT = os.path.dirname(os.path.dirname(os.path.abspath(__file__)))
 
 CHECKS = {
  "C01": dict(level="fault_enumeration", ref="6/C01", technique="deterministic simulation: crash-image enumeration (every I/O boundary x subsets of un-synced writes x header tears) over seeded transaction histories, recovery oracle against reference model",
-   text="Every simulated history is cut at every op-log index; for each cut the pending (un-synced) writes are enumerated exhaustively up to 8 pending ops and sampled above, header writes are torn at field boundaries; each image is opened with the real engine and must equal exactly the last committed model state (or the in-progress commit's state) identified by header txid, then a continuation workload must run without touching recovered pages. Sampling over histories/configs, exhaustive per history in the crash index.",
+   text="Every simulated history is cut at every op-log index; for each cut the pending (un-synced) writes are enumerated exhaustively up to 8 pending ops and sampled above, header writes are torn at field boundaries; each image is opened with the real engine and must equal exactly the last committed model state (or the in-progress commit's state) identified by header txid, then a continuation workload must run without touching recovered pages; for some continued images (preferably with a torn header) the continuation is cut by a second crash enumeration. Sampling over histories/configs, exhaustive per history in the crash index.",
    note="Assumes page-granular atomic writes (only the 84-byte header may tear), sync makes all earlier writes durable, truncate is a droppable ordered metadata op. Simulated vfs.File replaces osfs."),
  "C02": dict(level="exploration", ref="6/C02", technique="deterministic simulation: seeded schedule exploration of one writer and several readers with per-reader snapshot oracle",
    text="Readers and a writer run as cooperative tasks; the PRNG picks who runs at every txfile hook and disk call. Every reader must observe, twice, exactly one committed model state within the window allowed by the begin/commit event order; poisoned unmapped views expose use-after-remap.",
    note="Interleavings only at yield points (hooks + disk calls). Seeded sampling."),
  "C03": dict(level="exploration", ref="6/C03", technique="deterministic simulation: model-based differential execution of seeded transaction histories under scheduler-controlled writer batching",
-   text="Seeded histories of all page/transaction operations run against the real engine on a simulated disk and against a map-based reference model; reads inside the write transaction, after every transaction and after reopen must equal the model byte for byte. The scheduler starves or favours the background writer so that batches of queued writes vary.",
+   text="Seeded histories of all page/transaction operations (incl. handles fetched long before use, overflow-enabled fill-to-the-brim transactions, a rare huge-checkpoint variant) run against the real engine on a simulated disk and against a map-based reference model; reads inside the write transaction, after every transaction and after reopen must equal the model byte for byte. The scheduler starves or favours the background writer so that batches of queued writes vary.",
    note="Seeded sampling of histories, configurations and writer timings; simulated vfs.File replaces osfs."),
  "C04": dict(level="exploration", ref="6/C04", technique="deterministic simulation: ownership monitor on every allocation plus allocator partition invariant after every transaction of seeded histories (incl. rollback, failed commit, reopen, overflow area)",
    text="Every id returned by Alloc/AllocN is checked against the model's live set, the running transaction, pages freed by it and the engine's internal page sets; after every transaction the allocator snapshot must partition the file without overlap.",
@@ -22,13 +22,13 @@ CHECKS = {
    text="Seeded producer/consumer histories with boundary-biased event sizes, arbitrary write chunking and partial reads; the i-th delivered event must be byte-identical to the i-th appended event; visibility bounded by flush events.",
    note="Seeded sampling; queue runs on real txfile over simulated disk."),
  "C06": dict(level="fault_enumeration", ref="6/C06", technique="deterministic simulation: crash-image enumeration over seeded queue histories, drained queue compared with event model window",
-   text="Queue histories are cut at every I/O boundary with pending-write subsets; the reopened queue must contain exactly events [a,b) with a/b in the windows allowed by completed and in-progress ACKs/flushes.",
+   text="Queue histories are cut at every I/O boundary with pending-write subsets; every 12th recovered queue is used further (produce/consume/ACK/reopen with the FIFO and counter oracles); the reopened queue must contain exactly events [a,b) with a/b in the windows allowed by completed and in-progress ACKs/flushes.",
    note="Same disk assumptions as C01."),
  "C07": dict(level="exploration", ref="6/C07", technique="deterministic simulation: twin execution (history with vs without an aborted transaction) comparing state, free page sets and continuation outcomes",
    text="Run A executes prefix, an aborted transaction (rollback/close/commit failing from out of space or from a write error/short write injected right before that commit) and a continuation; run B omits the aborted transaction. Readable state, free-page sets, end markers, meta totals, continuation outcomes and post-reopen state must be identical.",
    note="Free space compared as page sets. Seeded sampling."),
  "C08": dict(level="fault_enumeration", ref="6/C08", technique="deterministic simulation: I/O fault plans (kind x call index x burst) aimed at calls of a dry run; model oracle, durable-image oracle, deadlock detection, bounded liveness",
-   text="Write/short-write/sync/truncate/size/mmap failures are injected at chosen call indices with bursts; operations must fail cleanly, transactions keep seeing the last committed state, successful commits are durable, and after faults stop a commit succeeds within two attempts; reopen shows the committed state or a complete later attempt whose only failure was the final sync.",
+   text="Write/short-write/sync/truncate/size/mmap/munmap/unlock failures are injected at chosen call indices with bursts, incl. two scenarios aimed at the open-time steps of size-changing opens, SyncNone configurations and reopen right after failed commits; operations must fail cleanly, transactions keep seeing the last committed state, successful commits are durable, a commit whose failure is not its final sync writes no complete header, and after faults stop a commit succeeds within two attempts; reopen shows the committed state or a complete later attempt whose only failure was the final sync.",
    note="Fault kinds limited to the vfs.File surface; no crash+error combination."),
  "C09": dict(level="exploration", ref="6/C09", technique="deterministic simulation: seeded schedule exploration of readers/writers/closer with deadlock detection, writer mutual exclusion monitor and idle-lock invariant; race clause by labelled -race side mode",
    text="N readers, M writers and an optional closer run under the seeded scheduler; at most one write transaction may be active, the scheduler must never find unfinished tasks with nothing runnable, and whenever no transaction is open the lock state must be idle; open-time maintenance transactions are included.",
@@ -37,7 +37,7 @@ CHECKS = {
    text="The same program runs once without and once with Close+Open at seeded points; snapshots before close and after open, all contents, capacity probes and subsequent operation outcomes must agree, including multi-page freelists and WAL mappings.",
    note="Seeded sampling with mixes biased to large/fragmented states."),
  "C11": dict(level="exploration", ref="6/C11", technique="deterministic simulation: conservation invariant (capacity probe, partition coverage, extent, stats) at every quiescent point of long seeded histories",
-   text="On bounded files without overflow the capacity probe plus live plus meta area plus two headers must equal max pages at every quiescent point; the partition must cover the file; the simulated file never exceeds max size; FileStats match the snapshot.",
+   text="On bounded files without overflow the capacity probe plus live plus meta area plus two headers must equal max pages at every quiescent point, also after reopens that raise the limit; the partition must cover the file; the simulated file never exceeds max size; FileStats match the snapshot.",
    note="Capacity measured by allocating until OutOfMemory inside a rolled-back transaction."),
  "C12": dict(level="exploration", ref="6/C12", technique="deterministic simulation: fill/drain cycles of the queue on small bounded simulated files with event model, space bound and no-drift oracle",
    text="Producer fills until error, consumer drains and ACKs, some reopens change the file limit (FlagUpdMaxSize); FIFO/byte-exact delivery, reads and ACKs succeed on a full file, flush succeeds after space is freed, and allocated pages stay within the un-ACKed events plus a constant with no drift across cycles.",
@@ -49,16 +49,16 @@ CHECKS = {
    text="Prior history (a quarter of the bounded runs with metadata in the overflow area past the limit), reopen with FlagUpdMaxSize (grow/shrink/unbounded, prealloc), further history and a plain reopen; contents intact, Begin/BeginReadonly do not block, capacity changes by exactly the added pages, extent respects the shrunken limit.",
    note="Seeded sampling of (old,new,prealloc) combinations."),
  "C15": dict(level="exploration", ref="6/C15", technique="deterministic simulation: exhaustive misuse matrix injected at seeded points of simulated histories (incl. fault-induced receiver states), with no-panic/no-block/no-change oracle",
-   text="At seeded points the full method x receiver-state matrix is executed under recover; each cell must return the documented error kind, not panic or block, and leave model state, running transaction and lock state unchanged.",
+   text="At seeded points the full method x receiver-state matrix (incl. handles of freed pages fetched again) is executed under recover; each cell must return the documented error kind, not panic or block, and leave model state, running transaction and lock state unchanged.",
    note="Only error-returning methods are judged."),
  "C16": dict(level="fault_enumeration", ref="6/C16", technique="deterministic simulation: stored-byte fault enumeration (all single-bit flips, all prefix tears, zeroing, scribbles) of either header on images of seeded histories",
-   text="For images taken after commits, every single-bit flip and byte-prefix tear of each header slot plus zeroing and random scribbles are applied; open must yield the state of the intact header, the newer one if both intact, or an error if both damaged; never a panic.",
+   text="For images taken after commits, every single-bit flip and byte-prefix tear of each header slot plus zeroing, field-aware damage, a copy of the other slot and random scribbles are applied; open must yield the state of the intact header, the newer one if both intact, or an error if both damaged; never a panic.",
    note="Checksum-valid scribbles are skipped and counted."),
  "C17": dict(level="exploration", ref="6/C17", technique="deterministic simulation: counter oracle after every step of seeded queue histories including reopen",
-   text="After every queue operation Pending/Active/Available and the Flushed/ACKed callback totals are compared with the event model; also after reopen.",
+   text="After every queue operation Pending/Active/Available and the Flushed/ACKed callback totals are compared with the event model; also after reopen, after flushes failing from out of space or from an injected write error, with and without a statistics Observer, and with event ids near 2^63/2^64.",
    note="Seeded sampling."),
  "C18": dict(level="exploration", ref="6/C18", technique="seeded open/close/failing-open histories with injected init faults against a one-bit lock model on the real file system",
-   text="Sequences of open, failing open (invalid options, damaged headers, injected I/O failure) and close on one path; after every close or failed open an immediate open must succeed; concurrent open fails with a lock error or waits; with two waiters of which one fails after locking the path stays locked for the other.",
+   text="Sequences of open, failing open (invalid options, damaged headers, injected I/O failure) and close on one path; after every close or failed open an immediate open must succeed; concurrent open fails with a lock error or waits; an Open left by a panic of the Observer releases the lock; with two waiters of which one fails after locking the path stays locked for the other.",
    note="Uses real flock; the only non-simulated seam."),
 }
 
